@@ -86,6 +86,56 @@ def history_group(rng, orderings, nsteps):
     return hs
 
 
+def mixed_name_sources(res, rng, quick):
+    """equal variable names that are DIFFERENT str objects (built at run time, not interned) reaching the library through
+    different doors — expression parser, lambda parser, node constructors — while the diagrams are alive: one function,
+    one node"""
+    from pyModelChecking.BDD import BDDNode, OBDD
+    mixed = 0
+    for k in range(60 if quick else 600):
+        base = rng.sample(['x1', 'x2', 'y10', 'sel', 'carry_in', 'q0'], rng.choice([2, 3]))
+
+        def fresh(nm):
+            return ''.join(list(nm))            # a new str object equal to nm
+        order = [fresh(v) for v in base]
+        e1 = B.rand_exp(rng, rng.choice([1, 2, 3]), base)
+        keep = [OBDD(B.render(e1), [fresh(v) for v in base])]
+        keep.append(OBDD('lambda %s: %s' % (','.join(base), B.render(e1))))
+
+        # the same function rebuilt node by node (Shannon expansion along the ordering) with fresh name objects
+        def shannon(env, rest):
+            if not rest:
+                return BDDNode(bool(B.eval_exp(e1, env)))
+            v = rest[0]
+            lo = shannon(dict(env, **{v: False}), rest[1:])
+            hi = shannon(dict(env, **{v: True}), rest[1:])
+            return lo if lo is hi else BDDNode(fresh(v), lo, hi)
+        hand = B.attempt(lambda: OBDD(shannon({}, list(base)), order))
+        mixed += 1
+        msgs = []
+        if isinstance(hand, tuple):
+            msgs.append('OBDD(node built by Shannon expansion, %s) raised %s' % (order, hand[1]))
+        else:
+            keep.append(hand)
+            for i, a in enumerate(keep):
+                for b in keep[i + 1:]:
+                    if not (a == b) or a.root is not b.root:
+                        msgs.append('the same function over %s built through two doors gives == %r, same root %r'
+                                    % (base, a == b, a.root is b.root))
+            by = {}
+            for nd in B.live_nonterminals():
+                by.setdefault((nd.var, id(nd.low), id(nd.high)), []).append(nd)
+            if any(len(v) > 1 for v in by.values()):
+                msgs.append('two live nodes share (var, low, high) after building %s through the parser and the node API'
+                            % B.render(e1))
+        for m in msgs[:1]:
+            res.violation('C16 (equal-but-not-identical variable names): ' + m,
+                          {'variables': base, 'expression': B.render(e1),
+                           'history': ['OBDD(expr, fresh-name list)', 'OBDD(lambda text)',
+                                       'OBDD(Shannon-expanded BDDNode tree with fresh name objects, fresh-name list)']})
+    return mixed
+
+
 def run(res):
     rng = rng_for('C16')
     quick = res.tier == 'quick'
@@ -93,6 +143,7 @@ def run(res):
     # diagrams); first, while the process holds no other diagram
     from checks import bdd_api
     store_api = bdd_api.run_store(res, rng_for('C16/store'), quick)
+    mixed = mixed_name_sources(res, rng_for('C16/names'), quick)
     B.live_nonterminals()
     hs = []
     orders = list(itertools.permutations(B.VARS))
@@ -152,6 +203,7 @@ def run(res):
         _gc.collect()
     st = B.run_histories(res, hs, 'C16')
     res.coverage['store_api'] = store_api
+    res.coverage['mixed_name_source_cases'] = mixed
     problems = proof_coverage(res, THEOREMS, MODULES)
     for p in problems:
         res.violation('proof obligation no longer checks: ' + p, {'theorem_or_module': p}, no_input=True)
